@@ -91,6 +91,7 @@ NormClause == IF \E i \in 1..Len(C.preds) : FSqNorm(C.preds[i]) > FSqNorm(PadRow
               THEN "prediction-longer-than-input" ELSE "ok"
 First(s) == LET bad == {i \in 1..Len(s) : s[i] # "ok"} IN IF bad = {} THEN "ok" ELSE s[SetMin(bad)]
 Verdict == IF C.raised THEN <<"rejected", "valid-input-raised">>
+           ELSE IF FMaxAbs(Xp) > 30 * S \/ FMaxAbs(Yp) > 30 * S THEN <<"inconclusive", "input-magnitude">>
            ELSE IF FMaxAbs(Om) > 8 * S THEN <<"rejected", "weight-matrix-entries-exceed-one">>
            ELSE IF ~C.padded /\ ~SvdOK THEN <<"badwitness", "svd">>
            ELSE IF Rstar # <<>> /\ ~RstarOK THEN <<"badwitness", "competitor-not-orthogonal">>
